@@ -5,6 +5,8 @@ import McpModel.EventStore.Props
 import McpModel.Conn.Props
 import McpModel.Conn.Deadlock
 import McpModel.Conn.Variant
+import McpModel.Conn.Bridge
+import McpModel.Conn.Sound
 import McpModel.SessClose.Props
 import McpModel.Bearer.Props
 import McpModel.KeepAlive.Props
